@@ -226,17 +226,15 @@ package nsqd
 //@   onreturn lastDeferredMsg := unbox(item.Value, "*Message")
 //@   onreturn lastDeferredItem := item
 
-// container/heap is outside the verified subset: the heap half of the deferred bookkeeping is assumed
-// to touch only the deferred heap (its slice, backing array and the items' back-index).
-// (area K) STILL TRUSTED: `heap.Push(&c.deferredPQ, item)` boxes the address of a struct field into an interface and
-// the engine loses the location (ENGINE GAPS), so the heap.Push extern cannot be bound to c.deferredPQ. Assumed here:
-// the call keeps the lock invariant of deferredMutex ([heap], [heap-items]) - true because heap.Push on a well-formed
-// heap yields a well-formed heap with the one extra entry `item`, and item carries a message (requires, proved at the
-// only call site StartDeferredTimeout).
+// (round 4) VERIFIED against the assumed container/heap.Push contract (internal/pqueue/zz_contracts_verif.go): the engine now keeps
+// the location behind `&c.deferredPQ` when it is boxed into heap.Interface, so the lock invariant of deferredMutex ([heap],
+// [heap-items]), the frame and every precondition of heap.Push are obligations here. One assumption remains, stated as a
+// `lockassume` (it needs a history argument this family cannot make): the item being pushed is not yet an entry of the heap -
+// it was allocated by the only caller StartDeferredTimeout, which has published it only in the deferredMessages map.
 //@ func (c *Channel) addToDeferredPQ(item *pqueue.Item)
 //@   props C13 C04
-//@   trusted
 //@   requires c != nil && msgItem(item)
+//@   lockassume forall k int :: {c.deferredPQ[k]} 0 <= k && k < len(c.deferredPQ) ==> c.deferredPQ[k] != item
 //@   modifies c.deferredMessages, c.deferredPQ, mapstore(map[MessageID]*pqueue.Item), elems(*pqueue.Item), pqueue.Item.Index
 
 //@ func (c *Channel) StartDeferredTimeout(msg *Message, timeout time.Duration) error
